@@ -583,4 +583,65 @@ example : writeWith wSchema 0 (some []) [] wStored (.cons "g" (.sc "i9") .nil)
     writeWith wSchema 0 none [] wStored (.cons "g" (.sc "i9") .nil)
       = .ok (.cons "g" (.sc "i9") .nil) (.cons "g" (.sc "i9") .nil) := by decide
 
+/-- **C05_sequence_last_write** (the named-field clause composed over sequences: the last write that
+names a field decides it).  For every resource writable mask, stored message with unique keys that a
+write `s` of the item meets, and every sequence `post` of further writes: if `s` is accepted, names
+the top-level field `k` in its (non-nil) update mask, `k` is writable for it and not in its reset
+mask, the written message holds a scalar at `k` or nothing, and every write of `post` leaves `k`
+alone (`Avoids`), then after `s :: post` the resource holds at `k` exactly what `s` wrote — its
+scalar, or nothing: *absent there means cleared* — whatever `post` did elsewhere and however many of
+its writes were rejected or panicked.  (`C05_scalar_in` for `s`, `C05_sequence_frame` for `post`.) -/
+theorem C05_sequence_last_write (S : Schema) (ty : Nat) (resW : Option (List Path)) (k : Name)
+    (hd : NotDisplaced S ty k) (s : Step) (post : List Step) (stored st src' : Fields)
+    (m : Path) (ms : List Path)
+    (hf : s.fresh = false)
+    (hM : ((computeWriteConfig s.opts).fieldUpdater resW).update = some (m :: ms))
+    (hMc : Clean (m :: ms)) (hMn : NonNil (m :: ms)) (hk : [k] ∈ m :: ms)
+    (hW : ∀ W, ((computeWriteConfig s.opts).fieldUpdater resW).writable = some W →
+      Clean W ∧ NonNil W ∧ ∃ w ∈ W, w <+: [k])
+    (hR : ∀ R, ((computeWriteConfig s.opts).fieldUpdater resW).reset = some R → Clean R ∧ Unrelated [k] R)
+    (hnd : stored.keys.Nodup) (hns : s.src.keys.Nodup)
+    (hsc : ∀ v, s.src.get k = some v → ∃ x, v = .sc x)
+    (ho : s.run S ty resW stored = .ok st src')
+    (hpost : ∀ s' ∈ post, Avoids k ((computeWriteConfig s'.opts).fieldUpdater resW)) :
+    (finalStored S ty resW stored (s :: post)).get k = s.src.get k := by
+  have hfin : finalStored S ty resW stored (s :: post) = finalStored S ty resW st post := by
+    rw [finalStored]
+    simp [ho, Step.next, hf]
+  rw [hfin, C05_sequence_frame S ty resW k hd post st hpost]
+  unfold Step.run writeWith valueSet at ho
+  simp only [hf, Bool.false_eq_true, if_false] at ho
+  split at ho
+  · split at ho
+    · cases ho
+    next r hm =>
+      simp only [SetOut.ok.injEq] at ho
+      obtain ⟨rfl, _⟩ := ho
+      have hout : ∀ q ∈ m :: ms, strictPrefix q [k] = false := by
+        intro q hq
+        have hq0 := hMn q hq
+        cases q with
+        | nil => exact absurd rfl hq0
+        | cons a t => simp [strictPrefix]
+      have := C05_scalar_in S ty _ stored s.src r m ms [k] hM hMc hMn hk hout hW hR
+        ⟨hd, trivial⟩ ⟨hnd, fun _ _ => trivial⟩ ⟨hns, fun _ _ => trivial⟩
+        (by simpa [Fields.getPath] using hsc) hm
+      simpa [Fields.getPath] using this
+  · cases ho
+
+/-- `C05_sequence_last_write` applies: `WithUpdatePaths("g")` of `{g=9}` resp. of `{}` (clears `g`),
+followed by a masked write of `f.c` that avoids `g`. -/
+example : (finalStored wSchema 0 none wStored
+      [⟨[.updateMask (some [["g"]])], .cons "g" (.sc "i9") .nil, false⟩,
+       ⟨[.updateMask (some [["f", "c"]])], .nil, false⟩]).get "g" = some (.sc "i9") ∧
+    (finalStored wSchema 0 none wStored
+      [⟨[.updateMask (some [["g"]])], .nil, false⟩,
+       ⟨[.updateMask (some [["f", "c"]])], .nil, false⟩]).get "g" = none ∧
+    (Step.run wSchema 0 none wStored ⟨[.updateMask (some [["g"]])], .nil, false⟩ matches .ok _ _) ∧
+    Avoids "g" ((computeWriteConfig [.updateMask (some [["f", "c"]])]).fieldUpdater none) := by
+  refine ⟨by decide, by decide, by decide, ?_, ?_⟩
+  · show Clean [["f", "c"]] ∧ NonNil [["f", "c"]] ∧ NoHead "g" [["f", "c"]]
+    decide
+  · intro R h; cases h
+
 end ScVerif.C05
